@@ -1,5 +1,6 @@
 (* C14: the file handle model (Model/File.v: hstate/hstep) refines the byte array with a cursor
-   (fspec/spec_step) inside an envelope of operations. *)
+   (fspec/spec_step): for every operation sequence, every flag combination and every initial content
+   (C14_refines_all; no envelope is left). *)
 From Coq Require Import List NArith ZArith Bool Lia.
 From Coq Require Import ZifyN ZifyBool.
 Import ListNotations.
@@ -92,72 +93,7 @@ Proof. reflexivity. Qed.
 Lemma notrail_clen0 c : notrail c -> clen c = 0 -> c = [].
 Proof. unfold notrail. intros H H0. rewrite H0 in H. destruct c as [|[[sd off] l] r]; [reflexivity|exact H]. Qed.
 
-(* ---------------------------------------------------------------- the envelope *)
-(* the envelope of the task statement: every operation except a Seek whose target lies beyond the end of the data
-   (ReadAt/WriteAt, accepted or refused, are inside: they preserve the cursor since the repair) *)
-Definition op_ok (s : fspec) (o : hop) : bool :=
-  match o with
-  | HSeek off w =>
-      (* the target must not lie beyond the end of the data *)
-      let base := if w =? 0 then 0%Z else if w =? 1 then Z.of_N (sp_pos s) else Z.of_N (clen (sp_data s)) in
-      (base + off <=? Z.of_N (clen (sp_data s)))%Z
-  | _ => true
-  end.
-Fixpoint ops_ok (s : fspec) (ops : list hop) : bool :=
-  match ops with [] => true | o :: r => op_ok s o && ops_ok (fst (spec_step s o)) r end.
-
 Definition results_agree (a b : list hres) : Prop := Forall2 (fun x y => hres_eqb x y = true) a b.
-
-(* the wider envelope: [wm] says that the handle is known to be in write mode (it was opened
-   truncating a non-empty file for writing, or an earlier Write/WriteAt (accepted or refused for a negative
-   offset) or a Truncate to a non-negative size was issued on a writable handle; a Truncate to a negative size
-   is refused before write mode is entered).  In write mode every seek is fine; in read mode a seek is fine
-   when it is rejected (bad whence, negative target) or its target is not beyond the end.  Everything else,
-   including every ReadAt and WriteAt, is fine in both modes. *)
-Definition enters_write (fl : flags) (o : hop) : bool :=
-  fl_write fl && match o with HWrite _ | HWriteAt _ _ => true | HTruncate sz => negb (sz <? 0)%Z | _ => false end.
-
-Definition op_ok' (wm : bool) (s : fspec) (o : hop) : bool :=
-  match o with
-  | HSeek off w =>
-      let base := if w =? 0 then 0%Z else if w =? 1 then Z.of_N (sp_pos s) else Z.of_N (clen (sp_data s)) in
-      wm || (2 <? w) || (base + off <=? Z.of_N (clen (sp_data s)))%Z
-  | _ => true
-  end.
-Fixpoint ops_ok' (wm : bool) (s : fspec) (ops : list hop) : bool :=
-  match ops with
-  | [] => true
-  | o :: r => op_ok' wm s o && ops_ok' (wm || enters_write (sp_fl s) o) (fst (spec_step s o)) r
-  end.
-Definition wm_open (existing : content) (fl : flags) : bool :=
-  fl_write fl && fl_trunc fl && negb (clen existing =? 0).
-
-(* only for SYNTACTIC equality of the results on contents that end in zero-length pieces: an accepted ReadAt in
-   read mode must not start beyond the end (the stream stops at the end and delivers those zero-length pieces,
-   the byte array delivers the empty piece list; both are zero bytes) *)
-Definition op_strict (wm : bool) (s : fspec) (o : hop) : bool :=
-  match o with
-  | HReadAt _ off => wm || negb (fl_read (sp_fl s)) || (off <=? Z.of_N (clen (sp_data s)))%Z
-  | _ => true
-  end.
-Fixpoint ops_strict (wm : bool) (s : fspec) (ops : list hop) : bool :=
-  match ops with
-  | [] => true
-  | o :: r => op_strict wm s o && ops_strict (wm || enters_write (sp_fl s) o) (fst (spec_step s o)) r
-  end.
-
-Lemma op_ok_weaken wm s o : op_ok s o = true -> op_ok' wm s o = true.
-Proof.
-  destruct o; cbn; try discriminate; try reflexivity.
-  intro H. rewrite H. rewrite !orb_true_r. reflexivity.
-Qed.
-
-Lemma ops_ok_weaken ops : forall wm s, ops_ok s ops = true -> ops_ok' wm s ops = true.
-Proof.
-  induction ops as [|o r IH]; intros wm s H; [reflexivity|].
-  cbn [ops_ok ops_ok'] in *. apply andb_true_iff in H. destruct H as [H1 H2].
-  rewrite (op_ok_weaken wm s o H1), (IH _ _ H2). reflexivity.
-Qed.
 
 (* ---------------------------------------------------------------- the simulation relation *)
 Definition rp (h : hstate) : N := match hs_rpos h with Some k => k | None => 0 end.
@@ -166,18 +102,17 @@ Definition is_w (h : hstate) : bool := match hs_buf h with Some _ => true | None
 (* [z = true]: a handle opened O_TRUNC for writing on an existing content that consists of zero-length
    pieces only stays in read mode with that content on "tape", while the reference holds []; the two
    agree up to [expand] only.  [z = false] excludes that corner and gives syntactic equality.
-   [q = true]: the content on "tape" does not end in zero-length pieces. *)
+   In read mode the position is the logical cursor, which may lie behind the end of the content. *)
 Definition empty_like (z : bool) (c : content) : Prop := if z then clen c = 0 else c = [].
 Lemma empty_like_clen z c : empty_like z c -> clen c = 0.
 Proof. destruct z; cbn; [auto|intros ->; reflexivity]. Qed.
 
-Definition sim (z q : bool) (h : hstate) (s : fspec) : Prop :=
+Definition sim (z : bool) (h : hstate) (s : fspec) : Prop :=
   hs_fl h = sp_fl s /\
   match hs_buf h with
   | Some (b, cur) => b = sp_data s /\ cur = sp_pos s
   | None =>
-      hs_isize h = clen (hs_tape h) /\ sp_pos s = rp h /\ sp_pos s <= clen (hs_tape h) /\
-      (q = true -> notrail (hs_tape h)) /\
+      hs_isize h = clen (hs_tape h) /\ sp_pos s = rp h /\
       (if fl_write (sp_fl s) && fl_trunc (sp_fl s)
        then empty_like z (hs_tape h) /\ sp_data s = []
        else hs_tape h = sp_data s)
@@ -212,25 +147,22 @@ Proof.
   destruct (hs_buf h) as [[b cur]|] eqn:Eb; cbn; rewrite ?Eb; reflexivity.
 Qed.
 
-Lemma sim_open z q existing fl :
+Lemma sim_open z existing fl :
   (z = false -> no_empty_pieces_corner existing fl) ->
-  (q = true -> notrail existing) ->
-  sim z q (h_open existing fl) (spec_open existing fl).
+  sim z (h_open existing fl) (spec_open existing fl).
 Proof.
-  intros Hz Hq. unfold sim, h_open, spec_open, rp. cbn [hs_fl sp_fl hs_buf hs_tape hs_isize hs_rpos sp_data sp_pos].
+  intros Hz. unfold sim, h_open, spec_open, rp. cbn [hs_fl sp_fl hs_buf hs_tape hs_isize hs_rpos sp_data sp_pos].
   split; [reflexivity|].
   destruct (fl_write fl && fl_trunc fl) eqn:E; cbn [andb].
   - destruct (clen existing =? 0) eqn:E0; cbn [negb].
-    + repeat split; try lia; try assumption. unfold empty_like. destruct z; [lia|]. apply Hz; [reflexivity|exact E|lia].
+    + repeat split; try lia. unfold empty_like. destruct z; [lia|]. apply Hz; [reflexivity|exact E|lia].
     + split; reflexivity.
-  - repeat split; try lia; assumption.
+  - repeat split; try lia.
 Qed.
 
-Lemma is_w_open existing fl : wm_open existing fl = true -> is_w (h_open existing fl) = true.
-Proof. unfold wm_open, is_w, h_open. cbn [hs_buf]. intros ->. reflexivity. Qed.
-
-(* entering write mode preserves the relation *)
-Lemma sim_enter_write z q h s : sim z q h s -> fl_write (sp_fl s) = true -> sim z q (enter_write h) s.
+(* entering write mode preserves the relation: the buffer is the reference's data (the empty buffer for an O_TRUNC handle,
+   whose file was empty), the cursor is the logical read position, wherever it lies *)
+Lemma sim_enter_write z h s : sim z h s -> fl_write (sp_fl s) = true -> sim z (enter_write h) s.
 Proof.
   destruct h as [tape isz rpos buf fl], s as [data pos fl'].
   unfold sim, enter_write, rp. cbn [hs_fl sp_fl hs_buf hs_tape hs_isize hs_rpos sp_data sp_pos].
@@ -238,8 +170,8 @@ Proof.
   - cbn [hs_fl sp_fl hs_buf hs_tape hs_isize hs_rpos]. auto.
   - cbn [hs_fl sp_fl hs_buf hs_tape hs_isize hs_rpos]. rewrite Hw in Hm. cbn [andb] in Hm.
     split; [reflexivity|].
-    destruct Hm as (Hi & Hp & Hle & _ & Hd). destruct (fl_trunc fl').
-    + destruct Hd as [H0 ->]. apply empty_like_clen in H0. split; [reflexivity|]. destruct rpos; lia.
+    destruct Hm as (Hi & Hp & Hd). destruct (fl_trunc fl').
+    + destruct Hd as [H0 ->]. split; [reflexivity|]. destruct rpos; lia.
     + split; [assumption|]. destruct rpos; lia.
 Qed.
 
@@ -325,14 +257,14 @@ Proof.
   erewrite h_seek_abs_w by reflexivity. rewrite of_N_ltb0, N2Z.id. reflexivity.
 Qed.
 
-(* ReadAt on a handle in (streaming) read mode whose position is within the content *)
-Lemma hstep_readat_r h n off : hs_buf h = None -> fl_read (hs_fl h) = true -> rp h <= clen (hs_tape h) ->
+(* ReadAt on a handle in (streaming) read mode: the read happens at the offset itself, also behind the end *)
+Lemma hstep_readat_r h n off : hs_buf h = None -> fl_read (hs_fl h) = true ->
   hstep h (HReadAt n off) =
   if (off <? 0)%Z then (seek_read h (rp h), RErr)
   else (seek_read h (rp h),
-        let d := cread (hs_tape h) (N.min (Z.to_N off) (clen (hs_tape h))) n in RData d (clen d =? 0)).
+        let d := cread (hs_tape h) (Z.to_N off) n in RData d (clen d =? 0)).
 Proof.
-  intros E Hr Hle. unfold hstep. rewrite Hr. cbn [negb].
+  intros E Hr. unfold hstep. rewrite Hr. cbn [negb].
   rewrite (h_seek_cur_r h E).
   rewrite (h_seek_abs_r (seek_read h (rp h)) off eq_refl).
   destruct (off <? 0)%Z; [reflexivity|].
@@ -340,12 +272,11 @@ Proof.
   erewrite h_seek_abs_r by reflexivity. rewrite of_N_ltb0, N2Z.id. reflexivity.
 Qed.
 
-Lemma sim_step z q wm h s o :
-  sim z q h s -> (wm = true -> is_w h = true) -> op_ok' wm s o = true ->
-  z || q || op_strict wm s o = true ->
-  sim z q (fst (hstep h o)) (fst (spec_step s o)) /\ res_sim z (snd (hstep h o)) (snd (spec_step s o)).
+Lemma sim_step z h s o :
+  sim z h s ->
+  sim z (fst (hstep h o)) (fst (spec_step s o)) /\ res_sim z (snd (hstep h o)) (snd (spec_step s o)).
 Proof.
-  intros Hsim Hwm Hok Hst. pose proof Hsim as Hsim0.
+  intros Hsim. pose proof Hsim as Hsim0.
   destruct Hsim as (Hfl & Hm).
   destruct o as [n|n off|off w|d|d off|sz| |].
   - (* Read *)
@@ -354,17 +285,17 @@ Proof.
     unfold sim, rp in *.
     destruct (hs_buf h) as [[b cur]|]; proj.
     + destruct Hm as [-> ->]. split; [|left; reflexivity]. auto.
-    + destruct Hm as (Hi & Hp & Hle & Hq & Hd). rewrite <- Hp.
+    + destruct Hm as (Hi & Hp & Hd). rewrite <- Hp.
       destruct (fl_write (sp_fl s) && fl_trunc (sp_fl s)).
       * destruct Hd as [H0 Hd]. rewrite Hd, cread_nil. pose proof (empty_like_clen _ _ H0) as H00.
         assert (Hc : clen (cread (hs_tape h) (sp_pos s) n) = 0) by (rewrite clen_cread; lia).
         rewrite Hc. cbn [clen fold_right]. split.
-        -- repeat split; auto; lia.
+        -- repeat split; auto.
         -- destruct z; cbn [empty_like] in H0.
            ++ right. split; [reflexivity|]. eexists. repeat split. exact Hc.
            ++ left. rewrite H0, cread_nil. reflexivity.
       * rewrite Hd in *. split; [|left; reflexivity].
-        repeat split; auto. rewrite clen_cread. lia.
+        repeat split; auto.
   - (* ReadAt *)
     unfold spec_step.
     destruct (fl_read (sp_fl s)) eqn:Er; cbn [negb orb].
@@ -373,56 +304,41 @@ Proof.
     destruct (hs_buf h) as [[b cur]|] eqn:Eb.
     + (* write mode *)
       rewrite (hstep_readat_w h b cur n off Eb Er). destruct Hm as [-> ->].
-      assert (S1 : sim z q (set_buf h (sp_data s) (sp_pos s)) s) by (unfold sim; proj; auto).
+      assert (S1 : sim z (set_buf h (sp_data s) (sp_pos s)) s) by (unfold sim; proj; auto).
       destruct (off <? 0)%Z; (split; [exact S1|left; reflexivity]).
     + (* read mode *)
-      destruct Hm as (Hi & Hp & Hle & Hq & Hd).
-      rewrite (hstep_readat_r h n off Eb Er) by lia.
-      assert (S1 : sim z q (seek_read h (rp h)) s).
-      { unfold sim, rp in *. proj. repeat split; auto; lia. }
+      destruct Hm as (Hi & Hp & Hd).
+      rewrite (hstep_readat_r h n off Eb Er).
+      assert (S1 : sim z (seek_read h (rp h)) s).
+      { unfold sim, rp in *. proj. repeat split; auto. }
       destruct (off <? 0)%Z eqn:Eo; [split; [exact S1|left; reflexivity]|].
       split; [exact S1|]. cbn [snd]. cbv zeta.
       destruct (fl_write (sp_fl s) && fl_trunc (sp_fl s)).
       * destruct Hd as [H0 Hd]. rewrite Hd, cread_nil. pose proof (empty_like_clen _ _ H0) as H00.
-        set (k := N.min _ _).
-        assert (Hc : clen (cread (hs_tape h) k n) = 0) by (rewrite clen_cread; lia).
+        assert (Hc : clen (cread (hs_tape h) (Z.to_N off) n) = 0) by (rewrite clen_cread; lia).
         rewrite Hc. cbn [clen fold_right].
         destruct z; cbn [empty_like] in H0.
         -- right. split; [reflexivity|]. eexists. repeat split. exact Hc.
         -- left. rewrite H0, cread_nil. reflexivity.
-      * rewrite <- Hd.
-        destruct (N.le_gt_cases (Z.to_N off) (clen (hs_tape h))) as [Hin|Hout].
-        -- rewrite N.min_l by assumption. left. reflexivity.
-        -- rewrite N.min_r by lia. rewrite (cread_beyond (hs_tape h) (Z.to_N off) n Hout).
-           assert (Hc : clen (cread (hs_tape h) (clen (hs_tape h)) n) = 0) by (rewrite clen_cread; lia).
-           rewrite Hc. cbn [clen fold_right].
-           destruct z; [right; split; [reflexivity|]; eexists; repeat split; exact Hc|].
-           left. destruct q.
-           ++ rewrite cread_end_notrail by auto. reflexivity.
-           ++ exfalso. cbn [orb op_strict] in Hst. rewrite <- Hfl, Er, <- Hd in Hst. cbn [negb orb] in Hst.
-              destruct wm; [specialize (Hwm eq_refl); unfold is_w in Hwm; rewrite Eb in Hwm; discriminate|].
-              cbn [orb] in Hst. apply Z.leb_le in Hst. apply Z.ltb_ge in Eo. lia.
-  - (* Seek *)
-    unfold hstep, h_seek, spec_step, op_ok' in *.
+      * rewrite <- Hd. left. reflexivity.
+  - (* Seek: in read mode the target becomes the logical position, wherever it lies *)
+    unfold hstep, h_seek, spec_step in *.
     unfold sim, rp, is_w in *.
     destruct (hs_buf h) as [[b cur]|] eqn:Eb; proj.
     + destruct Hm as [-> ->].
       destruct ((2 <? w) || _); proj; rewrite ?Eb; (split; [auto|left; reflexivity]).
-    + destruct Hm as (Hi & Hp & Hle & Hq & Hd).
+    + destruct Hm as (Hi & Hp & Hd).
       assert (Hlen : clen (hs_tape h) = clen (sp_data s)).
       { destruct (fl_write (sp_fl s) && fl_trunc (sp_fl s)); [destruct Hd as [H0 ->]; apply empty_like_clen in H0; rewrite H0; reflexivity|rewrite Hd; reflexivity]. }
       rewrite Hi, Hlen, <- Hp.
-      destruct wm; [specialize (Hwm eq_refl); discriminate|]. cbn [orb] in Hok.
       set (base := if w =? 0 then 0%Z else if w =? 1 then Z.of_N (sp_pos s) else Z.of_N (clen (sp_data s))) in *.
       destruct ((2 <? w) || (base + off <? 0)%Z) eqn:Ec; proj; rewrite ?Eb.
       * split; [|left; reflexivity]. repeat split; auto.
-      * split; [|left; reflexivity]. apply orb_false_iff in Ec. destruct Ec as [Ec1 Ec2].
-        rewrite Ec1 in Hok. cbn [orb] in Hok.
-        repeat split; auto; try lia.
+      * split; [|left; reflexivity]. repeat split; auto.
   - (* Write *)
     unfold hstep, spec_step. rewrite Hfl.
     destruct (fl_write (sp_fl s)) eqn:Ew; cbn [negb]; [|split; [exact Hsim0|left; reflexivity]].
-    pose proof (sim_enter_write z q h s Hsim0 Ew) as H1. pose proof (is_w_enter_write h) as W1.
+    pose proof (sim_enter_write z h s Hsim0 Ew) as H1. pose proof (is_w_enter_write h) as W1.
     generalize dependent (enter_write h). intros h1 H1 W1.
     unfold sim, is_w, h_write_at_cursor, to_end_if_append in *. destruct H1 as (Hfl1 & Hm1).
     destruct (hs_buf h1) as [[b cur]|] eqn:Eb; [|discriminate]. destruct Hm1 as [-> ->]. rewrite Hfl1.
@@ -430,10 +346,10 @@ Proof.
   - (* WriteAt *)
     unfold hstep, spec_step. rewrite Hfl.
     destruct (fl_write (sp_fl s)) eqn:Ew; cbn [negb orb] in *; [|split; [exact Hsim0|left; reflexivity]].
-    pose proof (sim_enter_write z q h s Hsim0 Ew) as H1. pose proof (is_w_enter_write h) as W1.
+    pose proof (sim_enter_write z h s Hsim0 Ew) as H1. pose proof (is_w_enter_write h) as W1.
     generalize dependent (enter_write h). intros h1 H1 W1.
     unfold is_w in W1. destruct (hs_buf h1) as [[b cur]|] eqn:Eb; [|discriminate].
-    pose proof (hstep_writeat_w h1 b cur d off Eb) as E. 
+    pose proof (hstep_writeat_w h1 b cur d off Eb) as E.
     destruct (h_seek h1 0 1) as [h0 c]. rewrite E. clear E.
     unfold sim in H1. rewrite Eb in H1. destruct H1 as (Hfl1 & -> & ->).
     destruct (off <? 0)%Z; (split; [unfold sim; proj; auto|left; reflexivity]).
@@ -441,7 +357,7 @@ Proof.
     unfold hstep, spec_step. rewrite Hfl.
     destruct (fl_write (sp_fl s)) eqn:Ew; cbn [negb orb]; [|split; [exact Hsim0|left; reflexivity]].
     destruct (sz <? 0)%Z eqn:Esz; [split; [exact Hsim0|left; reflexivity]|].
-    pose proof (sim_enter_write z q h s Hsim0 Ew) as H1. pose proof (is_w_enter_write h) as W1.
+    pose proof (sim_enter_write z h s Hsim0 Ew) as H1. pose proof (is_w_enter_write h) as W1.
     generalize dependent (enter_write h). intros h1 H1 W1. cbn zeta.
     unfold is_w in *. destruct (hs_buf h1) as [[b cur]|] eqn:Eb; [|discriminate].
     unfold sim in *. rewrite Eb in H1. destruct H1 as (Hfl1 & [-> ->]). proj.
@@ -452,124 +368,42 @@ Proof.
   - (* Stat *)
     unfold hstep, spec_step. proj. split; [exact Hsim0|]. left. f_equal.
     destruct (hs_buf h) as [[b cur]|] eqn:Eb; [destruct Hm as [-> _]; reflexivity|].
-    destruct Hm as (Hi & Hp & Hle & Hq & Hd). rewrite Hi.
+    destruct Hm as (Hi & Hp & Hd). rewrite Hi.
     destruct (fl_write (sp_fl s) && fl_trunc (sp_fl s)); [destruct Hd as [H0 ->]; apply empty_like_clen in H0; rewrite H0; reflexivity|rewrite Hd; reflexivity].
-Qed.
-
-(* write mode is never left, and Write/WriteAt/Truncate on a writable handle enter it *)
-Lemma is_w_h_seek h off w : is_w (fst (h_seek h off w)) = is_w h.
-Proof.
-  unfold h_seek, is_w. destruct (hs_buf h) as [[b cur]|] eqn:Eb.
-  - destruct (_ || _); cbn; rewrite ?Eb; reflexivity.
-  - destruct (_ || _); cbn; rewrite ?Eb; reflexivity.
-Qed.
-
-Lemma is_w_h_read h n : is_w (fst (h_read h n)) = is_w h.
-Proof.
-  unfold h_read, is_w. destruct (negb _); [reflexivity|].
-  destruct (hs_buf h) as [[b cur]|] eqn:Eb; cbn; rewrite ?Eb; reflexivity.
-Qed.
-
-Lemma is_w_h_write h d : is_w (fst (h_write_at_cursor h d)) = is_w h.
-Proof.
-  unfold h_write_at_cursor, is_w. destruct (hs_buf h) as [[b cur]|] eqn:Eb; cbn; rewrite ?Eb; reflexivity.
-Qed.
-
-Lemma is_w_readat h n off : is_w (fst (hstep h (HReadAt n off))) = is_w h.
-Proof.
-  unfold hstep. destruct (negb _); [reflexivity|].
-  pose proof (is_w_h_seek h 0 1) as S0. destruct (h_seek h 0 1) as [h0 r0]. cbn [fst] in S0.
-  destruct r0; cbn [fst]; try exact S0.
-  pose proof (is_w_h_seek h0 off 0) as S1. destruct (h_seek h0 off 0) as [h1 r1]. cbn [fst] in S1.
-  destruct r1; cbn [fst]; try congruence.
-  pose proof (is_w_h_read h1 n) as S2. destruct (h_read h1 n) as [h2 r2]. cbn [fst] in S2.
-  pose proof (is_w_h_seek h2 o 0) as S3. destruct (h_seek h2 o 0) as [h3 r3]. cbn [fst] in S3.
-  destruct r3; cbn [fst]; congruence.
-Qed.
-
-Lemma is_w_writeat h d off : fl_write (hs_fl h) = true -> is_w (fst (hstep h (HWriteAt d off))) = true.
-Proof.
-  intro Hw. unfold hstep. rewrite Hw. cbn [negb].
-  pose proof (is_w_enter_write h) as W. generalize dependent (enter_write h). intros h' W.
-  pose proof (is_w_h_seek h' 0 1) as S0. destruct (h_seek h' 0 1) as [h0 r0]. cbn [fst] in S0.
-  destruct r0; cbn [fst]; try congruence.
-  pose proof (is_w_h_seek h0 off 0) as S1. destruct (h_seek h0 off 0) as [h1 r1]. cbn [fst] in S1.
-  destruct r1; cbn [fst]; try congruence.
-  pose proof (is_w_h_write h1 d) as S2. destruct (h_write_at_cursor h1 d) as [h2 r2]. cbn [fst] in S2.
-  pose proof (is_w_h_seek h2 o 0) as S3. destruct (h_seek h2 o 0) as [h3 r3]. cbn [fst] in S3.
-  destruct r3; cbn [fst]; congruence.
-Qed.
-
-Lemma is_w_writeat_ro h d off : fl_write (hs_fl h) = false -> fst (hstep h (HWriteAt d off)) = h.
-Proof. intro Hw. unfold hstep. rewrite Hw. reflexivity. Qed.
-
-Lemma is_w_step h o :
-  is_w h = true \/ enters_write (hs_fl h) o = true -> is_w (fst (hstep h o)) = true.
-Proof.
-  unfold enters_write. intro H. destruct o as [n|n off|off w|d|d off|sz| |].
-  - unfold hstep. rewrite is_w_h_read. destruct H as [H|H]; [exact H|]. rewrite andb_false_r in H. discriminate.
-  - rewrite is_w_readat. destruct H as [H|H]; [exact H|]. rewrite andb_false_r in H. discriminate.
-  - unfold hstep. rewrite is_w_h_seek. destruct H as [H|H]; [exact H|]. rewrite andb_false_r in H. discriminate.
-  - unfold hstep. destruct (fl_write (hs_fl h)); cbn [negb andb] in *.
-    + rewrite is_w_h_write, is_w_to_end. apply is_w_enter_write.
-    + destruct H as [H|H]; [exact H|discriminate].
-  - destruct (fl_write (hs_fl h)) eqn:Ew; cbn [negb andb] in *.
-    + apply is_w_writeat. exact Ew.
-    + rewrite is_w_writeat_ro by exact Ew. destruct H as [H|H]; [exact H|discriminate].
-  - unfold hstep. destruct (fl_write (hs_fl h)); cbn [negb andb orb] in *.
-    + destruct (sz <? 0)%Z; cbn [negb] in *; [destruct H as [H|H]; [exact H|discriminate]|].
-      pose proof (is_w_enter_write h) as W. unfold is_w in *.
-      destruct (hs_buf (enter_write h)) as [[b cur]|] eqn:Eb; [|discriminate].
-      cbn; rewrite ?Eb; reflexivity.
-    + destruct H as [H|H]; [exact H|discriminate].
-  - unfold hstep. destruct H as [H|H]; [|rewrite andb_false_r in H; discriminate].
-    unfold is_w in *. destruct (hs_buf h) as [[b cur]|] eqn:Eb; cbn; rewrite ?Eb; [reflexivity|exact H].
-  - unfold hstep. destruct H as [H|H]; [exact H|]. rewrite andb_false_r in H. discriminate.
 Qed.
 
 (* ---------------------------------------------------------------- runs *)
 Definition results_sim (z : bool) (a b : list hres) : Prop := Forall2 (res_sim z) a b.
 
-Lemma sim_run z q ops : forall wm h s,
-  sim z q h s -> (wm = true -> is_w h = true) -> ops_ok' wm s ops = true ->
-  z || q || ops_strict wm s ops = true ->
-  sim z q (fst (hrun h ops)) (fst (spec_run s ops)) /\ results_sim z (snd (hrun h ops)) (snd (spec_run s ops)).
+Lemma sim_run z ops : forall h s,
+  sim z h s ->
+  sim z (fst (hrun h ops)) (fst (spec_run s ops)) /\ results_sim z (snd (hrun h ops)) (snd (spec_run s ops)).
 Proof.
-  induction ops as [|o r IH]; intros wm h s Hsim Hwm Hok Hst.
+  induction ops as [|o r IH]; intros h s Hsim.
   - cbn. split; [exact Hsim|constructor].
-  - cbn [ops_ok'] in Hok. apply andb_true_iff in Hok. destruct Hok as [Ho Hr].
-    assert (Hst1 : z || q || op_strict wm s o = true /\
-                   z || q || ops_strict (wm || enters_write (sp_fl s) o) (fst (spec_step s o)) r = true).
-    { cbn [ops_strict] in Hst. destruct (z || q); [split; reflexivity|]. cbn [orb] in *.
-      apply andb_true_iff in Hst. exact Hst. }
-    destruct Hst1 as [Hso Hsr].
-    destruct (sim_step z q wm h s o Hsim Hwm Ho Hso) as [S1 R1].
-    pose proof (is_w_step h o) as W1.
-    assert (Hfl : hs_fl h = sp_fl s) by (destruct Hsim as [E _]; exact E).
+  - destruct (sim_step z h s o Hsim) as [S1 R1].
     cbn [hrun spec_run].
     destruct (hstep h o) as [h1 x]. destruct (spec_step s o) as [s1 y]. cbn [fst snd] in *.
-    assert (Hwm1 : wm || enters_write (sp_fl s) o = true -> is_w h1 = true).
-    { intro E. apply W1. apply orb_true_iff in E. destruct E as [E|E]; [left; auto|right; rewrite Hfl; exact E]. }
-    destruct (IH _ h1 s1 S1 Hwm1 Hr Hsr) as [S2 R2].
+    destruct (IH h1 s1 S1) as [S2 R2].
     destruct (hrun h1 r) as [h2 xs]. destruct (spec_run s1 r) as [s2 ys]. cbn [fst snd] in *.
     split; [exact S2|constructor; assumption].
 Qed.
 
-Lemma sim_close z q h s : sim z q h s -> ceqb (h_close h) (sp_data s) = true.
+Lemma sim_close z h s : sim z h s -> ceqb (h_close h) (sp_data s) = true.
 Proof.
   unfold sim, h_close. intros (_ & Hm). destruct (hs_buf h) as [[b cur]|].
   - destruct Hm as [-> _]. apply ceqb_refl.
-  - destruct Hm as (_ & _ & _ & _ & Hd). destruct (_ && _).
+  - destruct Hm as (_ & _ & Hd). destruct (_ && _).
     + destruct Hd as [H0 ->]. apply ceqb_clen0; [exact (empty_like_clen _ _ H0)|reflexivity].
     + rewrite Hd. apply ceqb_refl.
 Qed.
 
 (* outside the corner the final content is the very same piece list *)
-Lemma sim_close_eq q h s : sim false q h s -> h_close h = sp_data s.
+Lemma sim_close_eq h s : sim false h s -> h_close h = sp_data s.
 Proof.
   unfold sim, h_close. intros (_ & Hm). destruct (hs_buf h) as [[b cur]|].
   - destruct Hm as [-> _]. reflexivity.
-  - destruct Hm as (_ & _ & _ & _ & Hd). destruct (_ && _); [|exact Hd].
+  - destruct Hm as (_ & _ & Hd). destruct (_ && _); [|exact Hd].
     destruct Hd as [H0 ->]. exact H0.
 Qed.
 
@@ -579,102 +413,115 @@ Proof. unfold results_sim, results_agree. induction 1; constructor; eauto using 
 Lemma results_sim_eq a b : results_sim false a b -> a = b.
 Proof. unfold results_sim. induction 1; [reflexivity|]. f_equal; [apply res_sim_eq; assumption|assumption]. Qed.
 
-(* the theorem for the wider envelope: every flag combination (O_APPEND included), every ReadAt/WriteAt *)
-Theorem C14_refines_wide : forall existing fl ops,
-  ops_ok' (wm_open existing fl) (spec_open existing fl) ops = true ->
+(* THE THEOREM: EVERY operation sequence, every flag combination, every initial content: each call returns what the
+   byte array with a cursor returns (contents compared as bytes), and the content after Close is the reference's data *)
+Theorem C14_refines_all : forall existing fl ops,
   let '(h, rs) := hrun (h_open existing fl) ops in
   let '(s, rs') := spec_run (spec_open existing fl) ops in
   results_agree rs rs' /\ ceqb (h_close h) (sp_data s) = true.
 Proof.
-  intros existing fl ops Hok.
+  intros existing fl ops.
   assert (Hz : true = false -> no_empty_pieces_corner existing fl) by discriminate.
-  assert (Hq : false = true -> notrail existing) by discriminate.
-  destruct (sim_run true false ops _ _ _ (sim_open true false existing fl Hz Hq) (is_w_open existing fl) Hok eq_refl) as [S R].
+  destruct (sim_run true ops _ _ (sim_open true existing fl Hz)) as [S R].
   destruct (hrun (h_open existing fl) ops) as [h rs].
   destruct (spec_run (spec_open existing fl) ops) as [s rs']. cbn [fst snd] in *.
   split; [eapply results_sim_agree; exact R|eapply sim_close; exact S].
 Qed.
 
-(* syntactic equality of results and of the final piece list, for an existing content that does not end in
-   zero-length pieces (in particular: a content without zero-length pieces) *)
-Theorem C14_refines_eq : forall existing fl ops,
-  notrail existing ->
-  ops_ok' (wm_open existing fl) (spec_open existing fl) ops = true ->
+(* the former theorems for the envelopes (ops_ok: no seek beyond the end in read mode, later: no lost cursor when an
+   O_TRUNC handle on an empty file enters write mode; ops_ok': the same with the mode bookkeeping): both restrictions
+   were repaired in /repo, the envelopes are gone, the names stay *)
+Corollary C14_refines_wide : forall existing fl ops,
   let '(h, rs) := hrun (h_open existing fl) ops in
   let '(s, rs') := spec_run (spec_open existing fl) ops in
-  rs = rs' /\ h_close h = sp_data s.
-Proof.
-  intros existing fl ops Hc Hok.
-  destruct (sim_run false true ops _ _ _
-              (sim_open false true existing fl (fun _ => notrail_no_corner existing fl Hc) (fun _ => Hc))
-              (is_w_open existing fl) Hok eq_refl) as [S R].
-  destruct (hrun (h_open existing fl) ops) as [h rs].
-  destruct (spec_run (spec_open existing fl) ops) as [s rs']. cbn [fst snd] in *.
-  split; [apply results_sim_eq; exact R|eapply sim_close_eq; exact S].
-Qed.
+  results_agree rs rs' /\ ceqb (h_close h) (sp_data s) = true.
+Proof. exact C14_refines_all. Qed.
+Corollary C14_refines : forall existing fl ops,
+  let '(h, rs) := hrun (h_open existing fl) ops in
+  let '(s, rs') := spec_run (spec_open existing fl) ops in
+  results_agree rs rs' /\ ceqb (h_close h) (sp_data s) = true.
+Proof. exact C14_refines_all. Qed.
 
-(* ... and for ANY existing content outside the corner "opened O_TRUNC for writing on a non-[] content whose pieces
-   all have length 0", when no accepted ReadAt in read mode starts beyond the end *)
-Theorem C14_refines_eq_strict : forall existing fl ops,
+(* SYNTACTIC equality of results and of the final piece list, for every operation sequence and ANY existing content outside
+   the corner "opened O_TRUNC for writing on a non-[] content whose pieces all have length 0" (there the handle delivers
+   those zero-length pieces where the reference delivers []: corner_not_syntactic below) *)
+Theorem C14_refines_all_eq : forall existing fl ops,
   no_empty_pieces_corner existing fl ->
-  ops_ok' (wm_open existing fl) (spec_open existing fl) ops = true ->
-  ops_strict (wm_open existing fl) (spec_open existing fl) ops = true ->
   let '(h, rs) := hrun (h_open existing fl) ops in
   let '(s, rs') := spec_run (spec_open existing fl) ops in
   rs = rs' /\ h_close h = sp_data s.
 Proof.
-  intros existing fl ops Hc Hok Hst.
-  assert (Hq : false = true -> notrail existing) by discriminate.
-  destruct (sim_run false false ops _ _ _ (sim_open false false existing fl (fun _ => Hc) Hq)
-              (is_w_open existing fl) Hok Hst) as [S R].
+  intros existing fl ops Hc.
+  destruct (sim_run false ops _ _ (sim_open false existing fl (fun _ => Hc))) as [S R].
   destruct (hrun (h_open existing fl) ops) as [h rs].
   destruct (spec_run (spec_open existing fl) ops) as [s rs']. cbn [fst snd] in *.
   split; [apply results_sim_eq; exact R|eapply sim_close_eq; exact S].
 Qed.
+Corollary C14_refines_eq_strict : forall existing fl ops,
+  no_empty_pieces_corner existing fl ->
+  let '(h, rs) := hrun (h_open existing fl) ops in
+  let '(s, rs') := spec_run (spec_open existing fl) ops in
+  rs = rs' /\ h_close h = sp_data s.
+Proof. exact C14_refines_all_eq. Qed.
+
+(* ... in particular for an existing content that does not end in zero-length pieces *)
+Corollary C14_refines_eq : forall existing fl ops,
+  notrail existing ->
+  let '(h, rs) := hrun (h_open existing fl) ops in
+  let '(s, rs') := spec_run (spec_open existing fl) ops in
+  rs = rs' /\ h_close h = sp_data s.
+Proof. intros existing fl ops Hc. apply C14_refines_all_eq. apply notrail_no_corner. exact Hc. Qed.
+
+(* ... for every handle that is not opened O_TRUNC for writing, and for every non-empty file *)
+Corollary C14_refines_eq_notrunc : forall existing fl ops,
+  fl_write fl && fl_trunc fl = false ->
+  let '(h, rs) := hrun (h_open existing fl) ops in
+  let '(s, rs') := spec_run (spec_open existing fl) ops in
+  rs = rs' /\ h_close h = sp_data s.
+Proof. intros existing fl ops H. apply C14_refines_all_eq. intros E. rewrite E in H. discriminate. Qed.
+Corollary C14_refines_eq_nonempty : forall existing fl ops,
+  clen existing <> 0 ->
+  let '(h, rs) := hrun (h_open existing fl) ops in
+  let '(s, rs') := spec_run (spec_open existing fl) ops in
+  rs = rs' /\ h_close h = sp_data s.
+Proof. intros existing fl ops H. apply C14_refines_all_eq. intros _ E. contradiction. Qed.
 
 (* the corner is real: syntactic equality fails there, equality up to [expand] holds *)
 Example corner_not_syntactic :
   let existing := [(1, 0, 0)] in
   let fl := {| fl_read := true; fl_write := true; fl_append := false; fl_trunc := true |} in
   let ops := [HRead 1] in
-  ops_ok (spec_open existing fl) ops = true /\
   hrun (h_open existing fl) ops =
     ({| hs_tape := [(1,0,0)]; hs_isize := 0; hs_rpos := Some 0; hs_buf := None; hs_fl := fl |}, [RData [(1, 0, 0)] true]) /\
   spec_run (spec_open existing fl) ops = ({| sp_data := []; sp_pos := 0; sp_fl := fl |}, [RData [] true]).
 Proof. vm_compute. repeat split. Qed.
 
-(* so is the other one: a ReadAt beyond the end of a content that ends in a zero-length piece, in read mode, delivers that
-   piece where the byte array delivers []; inside the envelope, equal up to [expand], not syntactically *)
-Example trailing_not_syntactic :
+(* the other one is gone: a ReadAt beyond the end of a content that ends in a zero-length piece, in read mode, used to
+   deliver that piece (the stream stopped at the end) where the byte array delivers []; now both deliver [] *)
+Example trailing_now_syntactic :
   let existing := [(5, 0, 4); (1, 0, 0)] in
   let fl := {| fl_read := true; fl_write := false; fl_append := false; fl_trunc := false |} in
-  let ops := [HReadAt 2 7] in
-  ops_ok (spec_open existing fl) ops = true /\ no_empty_pieces_corner existing fl /\
-  ops_strict (wm_open existing fl) (spec_open existing fl) ops = false /\
-  snd (hrun (h_open existing fl) ops) = [RData [(1, 0, 0)] true] /\
-  snd (spec_run (spec_open existing fl) ops) = [RData [] true].
-Proof. vm_compute. repeat split. discriminate. Qed.
+  let ops := [HReadAt 2 7; HSeek 9 0; HRead 2; HSeek 0 1] in
+  snd (hrun (h_open existing fl) ops) = [RData [] true; ROff 9; RData [] true; ROff 9] /\
+  snd (spec_run (spec_open existing fl) ops) = [RData [] true; ROff 9; RData [] true; ROff 9].
+Proof. vm_compute. repeat split. Qed.
 
-(* the theorem of the task statement *)
-Theorem C14_refines : forall existing fl ops,
-  ops_ok (spec_open existing fl) ops = true ->
-  let '(h, rs) := hrun (h_open existing fl) ops in
-  let '(s, rs') := spec_run (spec_open existing fl) ops in
-  results_agree rs rs' /\ ceqb (h_close h) (sp_data s) = true.
-Proof.
-  intros existing fl ops Hok. apply C14_refines_wide. apply ops_ok_weaken. exact Hok.
-Qed.
-
-(* ---------------------------------------------------------------- the envelope is needed *)
-(* the restriction of the envelope is violated by a concrete run ([agree_b] decides the conclusion
-   of the theorems) *)
+(* ---------------------------------------------------------------- the theorems, run *)
+(* [agree_b] decides the conclusion of the theorems *)
 Definition agree_b (existing : content) (fl : flags) (ops : list hop) : bool :=
   let '(h, rs) := hrun (h_open existing fl) ops in
   let '(s, rs') := spec_run (spec_open existing fl) ops in
   match first_bad 0 rs rs' with Some _ => false | None => ceqb (h_close h) (sp_data s) end.
-(* membership in the wide envelope *)
-Definition in_env (existing : content) (fl : flags) (ops : list hop) : bool :=
-  ops_ok' (wm_open existing fl) (spec_open existing fl) ops.
+
+(* ... and is decided by them *)
+Lemma first_bad_agree : forall a b i, results_agree a b -> first_bad i a b = None.
+Proof. intros a b i H. revert i. induction H as [|x y a b Hxy _ IH]; intro i; cbn; [reflexivity|]. rewrite Hxy. apply IH. Qed.
+Theorem C14_agree_b_all : forall existing fl ops, agree_b existing fl ops = true.
+Proof.
+  intros existing fl ops. pose proof (C14_refines_all existing fl ops) as H. unfold agree_b.
+  destruct (hrun (h_open existing fl) ops) as [h rs]. destruct (spec_run (spec_open existing fl) ops) as [s rs'].
+  destruct H as [H1 H2]. rewrite (first_bad_agree _ _ 0%nat H1). exact H2.
+Qed.
 
 Definition fl_ro := {| fl_read := true; fl_write := false; fl_append := false; fl_trunc := false |}.
 Definition fl_rw := {| fl_read := true; fl_write := true; fl_append := false; fl_trunc := false |}.
@@ -685,29 +532,62 @@ Definition fl_wo := {| fl_read := false; fl_write := true; fl_append := false; f
 Definition fl_woa := {| fl_read := false; fl_write := true; fl_append := true; fl_trunc := false |}.
 Definition ten : content := [(5, 0, 10)].
 
-(* a seek beyond the end in read mode loses the position *)
-Example needs_seek_bound : agree_b ten fl_ro [HSeek 20 0; HSeek 0 1] = false.
+(* the former witnesses of the seek-bound restriction (a seek beyond the end in read mode lost the position) agree now:
+   the read handle keeps its logical cursor behind the end of the stream *)
+Example seek_beyond_end_agrees :
+  agree_b ten fl_ro [HSeek 20 0; HSeek 0 1] = true /\
+  agree_b ten fl_rw [HTruncate (-1); HSeek 20 0; HSeek 0 1] = true /\
+  agree_b ten fl_rwa [HSeek 20 0; HSeek 0 1] = true /\
+  agree_b ten fl_ro [HSeek 20 0; HReadAt 2 3; HSeek 0 1] = true /\
+  snd (hrun (h_open ten fl_ro) [HSeek 20 0; HSeek 0 1]) = [ROff 20; ROff 20].
+Proof. vm_compute. repeat split; reflexivity. Qed.
+(* reads behind the end return nothing and do not move the cursor; relative seeks and seeks from the end continue from the
+   logical position; a ReadAt restores it *)
+Example seek_beyond_end_reads_agree :
+  agree_b ten fl_ro [HSeek 20 0; HRead 3; HSeek 0 1; HSeek (-15) 1; HRead 3; HSeek 0 1] = true /\
+  snd (hrun (h_open ten fl_ro) [HSeek 20 0; HRead 3; HSeek 0 1; HSeek (-15) 1; HRead 3; HSeek 0 1]) =
+    [ROff 20; RData [] true; ROff 20; ROff 5; RData [(5, 5, 3)] false; ROff 8] /\
+  agree_b ten fl_ro [HSeek 5 2; HRead 3; HSeek 3 1; HSeek 0 1; HReadAt 4 8; HSeek 0 1; HStat] = true /\
+  snd (hrun (h_open ten fl_ro) [HSeek 5 2; HRead 3; HSeek 3 1; HSeek 0 1; HReadAt 4 8; HSeek 0 1; HStat]) =
+    [ROff 15; RData [] true; ROff 18; ROff 18; RData [(5, 8, 2)] false; ROff 18; RSize 10].
+Proof. vm_compute. repeat split; reflexivity. Qed.
+(* entering write mode from a position behind the end: the first Write lands there and the hole reads as zeros, as in
+   the reference; WriteAt and Truncate keep the position *)
+Example seek_beyond_end_then_write_agrees :
+  agree_b ten fl_rw [HSeek 20 0; HWrite [(7, 0, 2)]; HSeek 0 1; HStat; HReadAt 40 0] = true /\
+  h_close (fst (hrun (h_open ten fl_rw) [HSeek 20 0; HWrite [(7, 0, 2)]])) = [(5, 0, 10); (0, 0, 10); (7, 0, 2)] /\
+  agree_b ten fl_rwa [HSeek 20 0; HWrite [(7, 0, 2)]; HSeek 0 1; HStat; HReadAt 40 0] = true /\
+  h_close (fst (hrun (h_open ten fl_rwa) [HSeek 20 0; HWrite [(7, 0, 2)]])) = [(5, 0, 10); (7, 0, 2)] /\
+  agree_b ten fl_rw [HSeek 20 0; HWriteAt [(7, 0, 2)] 3; HSeek 0 1; HWrite [(8, 0, 1)]; HStat; HReadAt 40 0] = true /\
+  agree_b ten fl_rw [HSeek 20 0; HTruncate 4; HSeek 0 1; HWrite [(8, 0, 1)]; HStat; HReadAt 40 0] = true /\
+  agree_b [] fl_rw [HSeek 20 0; HWrite [(7, 0, 2)]; HSeek 0 1; HStat; HReadAt 40 0] = true /\
+  agree_b ten fl_rwt [HSeek 20 0; HWrite [(7, 0, 2)]; HSeek 0 1; HStat; HReadAt 40 0] = true.
+Proof. vm_compute. repeat split; reflexivity. Qed.
+Example seek_free_after_truncate : agree_b ten fl_rw [HTruncate 10; HSeek 20 0; HSeek 0 1] = true.
 Proof. vm_compute. reflexivity. Qed.
-(* ... also after a refused Truncate (negative size), which does not enter write mode *)
-Example needs_seek_bound_after_refused_truncate : agree_b ten fl_rw [HTruncate (-1); HSeek 20 0; HSeek 0 1] = false.
-Proof. vm_compute. reflexivity. Qed.
-(* ... also with ReadAt/WriteAt-free positioned reads in between, and on an append handle *)
-Example needs_seek_bound_append : agree_b ten fl_rwa [HSeek 20 0; HSeek 0 1] = false.
-Proof. vm_compute. reflexivity. Qed.
-(* ... and a ReadAt does not repair a lost position (it restores the clamped one) *)
-Example needs_seek_bound_readat : agree_b ten fl_ro [HSeek 20 0; HReadAt 2 3; HSeek 0 1] = false.
-Proof. vm_compute. reflexivity. Qed.
-(* ... while after an accepted Truncate the same seeks are inside the wider envelope *)
-Example seek_free_after_truncate :
-  ops_ok' (wm_open ten fl_rw) (spec_open ten fl_rw) [HTruncate 10; HSeek 20 0; HSeek 0 1] = true /\
-  ops_ok (spec_open ten fl_rw) [HTruncate 10; HSeek 20 0; HSeek 0 1] = false.
-Proof. vm_compute. split; reflexivity. Qed.
-(* ... and after a WriteAt, even a refused one (negative offset: write mode is entered before the offset is looked at) *)
 Example seek_free_after_writeat :
-  in_env ten fl_rw [HWriteAt [] 3; HSeek 20 0; HSeek 0 1] = true /\
   agree_b ten fl_rw [HWriteAt [] 3; HSeek 20 0; HSeek 0 1] = true /\
-  in_env ten fl_rw [HWriteAt [(7, 0, 2)] (-1); HSeek 20 0; HSeek 0 1] = true /\
   agree_b ten fl_rw [HWriteAt [(7, 0, 2)] (-1); HSeek 20 0; HSeek 0 1] = true.
+Proof. vm_compute. repeat split; reflexivity. Qed.
+
+(* the last restriction is gone too.  A handle opened O_TRUNC for writing on an EMPTY file stays in read mode (there is
+   nothing to truncate); enterWriteMode used to start an O_TRUNC handle at position 0 whatever its read cursor was, so the
+   first Write after a Seek went to offset 0 where the reference writes at the cursor; repaired in /repo (the cursor is
+   kept), mirrored in Model/File.v (enter_write).  The former witnesses (needs_pos0_trunc_on_empty and its variants) agree: *)
+Example trunc_on_empty_agrees :
+  agree_b [] fl_rwt [HSeek 20 0; HWrite [(7, 0, 2)]] = true /\
+  hrun (h_open [] fl_rwt) [HSeek 20 0; HWrite [(7, 0, 2)]; HSeek 0 1] =
+    ({| hs_tape := []; hs_isize := 0; hs_rpos := None; hs_buf := Some ([(0, 0, 20); (7, 0, 2)], 22); hs_fl := fl_rwt |},
+     [ROff 20; RN 2; ROff 22]) /\
+  spec_run (spec_open [] fl_rwt) [HSeek 20 0; HWrite [(7, 0, 2)]; HSeek 0 1] =
+    ({| sp_data := [(0, 0, 20); (7, 0, 2)]; sp_pos := 22; sp_fl := fl_rwt |}, [ROff 20; RN 2; ROff 22]) /\
+  agree_b [] fl_rwt [HSeek 20 0; HWriteAt [(7, 0, 2)] 3; HSeek 0 1] = true /\
+  agree_b [] fl_rwt [HSeek 20 0; HTruncate 3; HSeek 0 1] = true /\
+  agree_b [] fl_rwat [HSeek 20 0; HWrite []; HSeek 0 1] = true /\
+  agree_b [(5, 0, 0)] fl_rwt [HSeek 1 2; HWrite [(7, 0, 2)]] = true /\
+  agree_b [] fl_rwat [HSeek 20 0; HWrite [(7, 0, 2)]; HSeek 0 1] = true /\
+  agree_b [] fl_rwt [HSeek 20 0; HTruncate (-1); HSeek 0 1; HRead 2; HSeek 0 0; HWrite [(7, 0, 2)]; HSeek 0 1] = true /\
+  agree_b ten fl_rwt [HSeek 20 0; HWrite [(7, 0, 2)]; HSeek 0 1] = true.
 Proof. vm_compute. repeat split; reflexivity. Qed.
 
 (* O_APPEND handles: on the pinned tree the flag was honoured only when entering write mode; repaired in /repo
@@ -720,18 +600,16 @@ Example append_agrees :
 Proof. vm_compute. repeat split; reflexivity. Qed.
 
 (* ReadAt/WriteAt used to move the cursor; repaired in /repo (the cursor is remembered and restored), mirrored in
-   Model/File.v.  The sequences that used to witness the finding agree, and are inside even the narrow envelope. *)
-Example readat_agrees :
-  agree_b ten fl_ro [HReadAt 2 3; HRead 1] = true /\ ops_ok (spec_open ten fl_ro) [HReadAt 2 3; HRead 1] = true.
-Proof. vm_compute. split; reflexivity. Qed.
-Example writeat_agrees :
-  agree_b ten fl_rw [HWriteAt [(7, 0, 2)] 0; HWrite [(8, 0, 1)]] = true /\
-  ops_ok (spec_open ten fl_rw) [HWriteAt [(7, 0, 2)] 0; HWrite [(8, 0, 1)]] = true.
-Proof. vm_compute. split; reflexivity. Qed.
+   Model/File.v.  The sequences that used to witness the finding agree. *)
+Example readat_agrees : agree_b ten fl_ro [HReadAt 2 3; HRead 1] = true.
+Proof. vm_compute. reflexivity. Qed.
+Example writeat_agrees : agree_b ten fl_rw [HWriteAt [(7, 0, 2)] 0; HWrite [(8, 0, 1)]] = true.
+Proof. vm_compute. reflexivity. Qed.
 
 (* a test matrix (instances of the theorems, run): every flag combination below x every sequence below x four
    initial contents: read mode, write mode, append handles, offsets beyond the end, negative offsets, zero-length
-   data, after Truncate, after Sync, on the empty file and on contents with zero-length pieces *)
+   data, after Truncate, after Sync, on the empty file and on contents with zero-length pieces; seeks beyond the end in
+   read mode followed by reads, relative seeks, seeks from the end, ReadAt, then a first Write / WriteAt / Truncate *)
 Definition test_flags : list flags := [fl_ro; fl_rw; fl_rwa; fl_rwt; fl_rwat; fl_wo; fl_woa].
 Definition test_contents : list content := [ten; []; [(5, 0, 0)]; [(5, 0, 4); (6, 0, 0); (7, 3, 6); (1, 0, 0)]].
 Definition test_seqs : list (list hop) := [
@@ -754,19 +632,50 @@ Definition test_seqs : list (list hop) := [
   [HRead 5; HWriteAt [(6, 0, 1)] 1; HWrite [(6, 0, 1)]; HSeek 0 1;  HStat; HReadAt 50 0];
   [HSeek 0 2; HReadAt 3 3; HRead 1; HSeek 0 1; HReadAt 3 10; HSeek 0 1];
   [HSeek (-2) 2; HReadAt 3 9; HRead 5; HSeek 0 1; HReadAt 3 10; HSeek 0 1];
-  [HReadAt 5 1; HWriteAt [(7, 0, 2)] 12; HReadAt 20 0; HSeek 0 1; HWrite [(8, 0, 3)]; HReadAt 20 0; HSeek 0 1] ].
-Definition test_matrix : list (bool * bool) :=
-  flat_map (fun c => flat_map (fun fl => map (fun ops => (in_env c fl ops, agree_b c fl ops)) test_seqs) test_flags) test_contents.
-(* 560 runs; 556 inside the envelope, all of which agree; the other 4 (a read-only handle seeks beyond the end after a
-   refused WriteAt) disagree *)
+  [HReadAt 5 1; HWriteAt [(7, 0, 2)] 12; HReadAt 20 0; HSeek 0 1; HWrite [(8, 0, 3)]; HReadAt 20 0; HSeek 0 1];
+  (* seeks beyond the end *)
+  [HSeek 20 0; HSeek 0 1];
+  [HTruncate (-1); HSeek 20 0; HSeek 0 1];
+  [HWriteAt [(7, 0, 2)] (-3); HSeek 20 0; HSeek 0 1];
+  [HSeek 20 0; HReadAt 2 3; HSeek 0 1; HRead 4; HSeek 0 1];
+  [HSeek 20 0; HRead 3; HSeek 0 1; HSeek (-15) 1; HRead 3; HSeek 0 1];
+  [HSeek 5 2; HRead 3; HSeek 3 1; HSeek 0 1; HReadAt 4 8; HSeek 0 1; HStat];
+  [HSeek 5 2; HSeek (-30) 1; HSeek 0 1; HSeek 7 3; HSeek 0 1];
+  [HSeek 20 0; HWrite [(7, 0, 2)]; HSeek 0 1; HStat; HReadAt 40 0];
+  [HSeek 20 0; HWrite []; HSeek 0 1; HStat; HReadAt 40 0; HWrite [(7, 0, 2)]; HStat; HReadAt 40 0];
+  [HSeek 20 0; HWriteAt [(7, 0, 2)] 3; HSeek 0 1; HStat; HReadAt 40 0; HWrite [(8, 0, 1)]; HStat; HReadAt 40 0];
+  [HSeek 20 0; HWriteAt [(7, 0, 2)] 30; HSeek 0 1; HStat; HReadAt 40 0; HWrite [(8, 0, 1)]; HStat; HReadAt 40 0];
+  [HSeek 20 0; HTruncate 4; HSeek 0 1; HStat; HReadAt 40 0; HWrite [(7, 0, 2)]; HStat; HReadAt 40 0];
+  [HSeek 20 0; HTruncate 30; HSeek 0 1; HStat; HReadAt 40 0; HWrite [(7, 0, 2)]; HStat; HReadAt 40 0];
+  [HSeek 3 2; HRead 2; HSeek 2 1; HWrite [(7, 0, 2)]; HSync; HSeek 0 1; HStat; HReadAt 40 0];
+  [HSeek 20 0; HSeek 0 0; HWrite [(7, 0, 2)]; HSeek 20 1; HWrite [(8, 0, 1)]; HSeek 0 1; HStat; HReadAt 40 0] ].
+Definition test_matrix : list bool :=
+  flat_map (fun c => flat_map (fun fl => map (fun ops => agree_b c fl ops) test_seqs) test_flags) test_contents.
+(* 980 runs, all of which agree (there is no envelope any more) *)
 Example readat_writeat_tests :
-  length test_matrix = 560%nat /\
-  length (filter (fun x => fst x) test_matrix) = 556%nat /\
-  forallb (fun x => implb (fst x) (snd x)) test_matrix = true /\
-  forallb (fun x => fst x || negb (snd x)) test_matrix = true.
-Proof. vm_compute. repeat split; reflexivity. Qed.
+  length test_matrix = 980%nat /\ forallb (fun x => x) test_matrix = true.
+Proof. vm_compute. split; reflexivity. Qed.
 
+(* ... and EVERY sequence of two operations over an alphabet of 17, on the same flags and contents: 8092 runs agree, none
+   disagrees (with three operations: 137564 runs agree, none disagrees; not compiled here, it takes over a minute) *)
+Definition alphabet : list hop :=
+  [HRead 3; HReadAt 4 12; HReadAt 2 1; HSeek 20 0; HSeek 0 0; HSeek (-4) 1; HSeek 3 2; HSeek 0 1; HWrite [(7, 0, 2)]; HWrite [];
+   HWriteAt [(8, 0, 3)] 14; HWriteAt [] 2; HTruncate 4; HTruncate 25; HTruncate (-1); HSync; HStat].
+Fixpoint all_seqs (n : nat) : list (list hop) :=
+  match n with O => [[]] | S k => flat_map (fun r => map (fun o => o :: r) alphabet) (all_seqs k) end.
+Definition tally (acc : N * N) (x : bool) : N * N :=
+  let '(a, b) := acc in if x then (a + 1, b) else (a, b + 1).
+(* (agreeing runs, disagreeing runs) *)
+Definition exhaustive (n : nat) : N * N :=
+  fold_left (fun acc c => fold_left (fun acc fl =>
+    fold_left (fun acc ops => tally acc (agree_b c fl ops)) (all_seqs n) acc) test_flags acc) test_contents (0, 0).
+Example exhaustive_pairs : exhaustive 2 = (8092, 0).
+Proof. vm_compute. reflexivity. Qed.
+
+Print Assumptions C14_refines_all.
+Print Assumptions C14_refines_all_eq.
 Print Assumptions C14_refines_wide.
+Print Assumptions C14_refines.
 Print Assumptions C14_refines_eq.
 Print Assumptions C14_refines_eq_strict.
-Print Assumptions C14_refines.
+Print Assumptions C14_agree_b_all.
